@@ -293,6 +293,8 @@ def run(ck: common.Check, replay=None):
         open(dpath, "w").write(src + DIAG)
         rc2, out2, err2 = common.coqc(dpath, 3000)
         o = common.coq_outputs(out2)
+        while o and not o[0].startswith("V"):
+            o = o[1:]
         rep = {"case": name, "hier_source": hs, "flat_source": fs, "hier_vhdl": vh, "flat_vhdl": vf, "case_file": path}
         if o and o[0].startswith("VCex"):
             rep.update({"path": o[0], "traces": o[1] if len(o) > 1 else ""})
